@@ -26,10 +26,13 @@ CASE_LO = {"É": "é", "Λ": "λ", "Ñ": "ñ", "Ü": "ü", "Ж": "ж"}
 
 class PROP(PropCheck):
     id = "C14"
-    theorems = []
+    theorems = ["C14_join_split", "C14_split_pieces_count", "C14_split_empty_pattern", "C14_contains_spec", "C14_starts_with_spec",
+                "C14_ends_with_spec", "C14_replace_spec", "C14_replace_identity", "C14_substring_spec", "C14_substring_is_slice",
+                "C14_substring_clipped", "C14_trim_spec", "C14_to_upper_ascii", "C14_to_lower_ascii", "C14_parse_bool_spec",
+                "C14_positions_consistent", "C14_char_array_length"]
     coq_imports = ["Obs"]
     model_targets = ["theories/Obs.vo"]
-    prop_targets = []
+    prop_targets = ["theories/Props/C14.vo"]
     harness_mode = "run"
     trusted_base = [
         "Coq 8.16.1 kernel and bytecode VM",
